@@ -1,2 +1,5 @@
+import QuicProofs.Bridge.DcReplay
 import QuicProofs.Bridge.VarInt
+import QuicProofs.Lemmas.DcReplay
 import QuicProofs.Props.C05VarInt
+import QuicProofs.Props.C19Replay
